@@ -516,7 +516,7 @@ def gen_runs(rng, case, k):
     return runs
 
 
-def gen_case(rng, k, nruns, big=None):
+def gen_case(rng, k, nruns, big=None, dateline=None):
     """One input: build points, query points, radius, metric; and `nruns` constructions (tree class, leaf size,
     shuffle, seed)."""
     style = rng.choice(["global", "cluster", "cluster", "cluster", "grid", "single", "single", "special", "tiny"])
@@ -576,6 +576,20 @@ def gen_case(rng, k, nruns, big=None):
                 qs.append(_near(rng, *rng.choice(pts), 10 ** rng.uniform(-3, 2)))
             else:
                 qs.append(rng.choice(pool))
+    if dateline is not None:
+        # directed, whatever the seed: ALL build points on one side of the date line, ALL query points on the other (or the
+        # meridian itself written once as 180 and once as -180); the pairs reach across it
+        n, m = 12, 5
+        lat0 = [10.0, -35.0, 62.0, 0.0][dateline % 4]
+        east = dateline % 2 == 0
+        lon_b = (lambda: rng.uniform(179.0, 180.0)) if east else (lambda: rng.uniform(-180.0, -179.0))
+        lon_q = (lambda: rng.uniform(-180.0, -179.0)) if east else (lambda: rng.uniform(179.0, 180.0))
+        pts = [(lat0 + rng.uniform(-1, 1), lon_b()) for _ in range(n)]
+        qs = [(lat0 + rng.uniform(-1, 1), lon_q()) for _ in range(m)]
+        if dateline >= 4:
+            pts[0], qs[0] = (lat0, 180.0), (lat0 + 0.01, -180.0)
+        style, r_km = "dateline", 150.0
+        metric = [None, "haversine"][dateline % 2] if dateline < 4 else ["haversine", "minkowski"][dateline % 2]
     # duplicates
     if n > 2 and rng.random() < 0.3:
         for _ in range(rng.randint(1, max(1, n // 4))):
@@ -878,7 +892,8 @@ def run(ctx):
     cases = []
     for k in range(ninputs):
         b = big[k // 50] if (big and k % 50 == 49 and k // 50 < len(big)) else None
-        cases.append(gen_case(rng, k, nruns if not b else 3, big=b))
+        dl = (k // 10) if (k % 10 == 5 and k // 10 < 6) else None
+        cases.append(gen_case(rng, k, nruns if not b else 3, big=b, dateline=dl))
     batch = 400
     for s in range(0, len(cases), batch):
         check_cases(ctx, cases[s:s + batch], tbl, stats)
